@@ -87,6 +87,8 @@ def generate(rng, tier):
         nvar = rng.randint(1, 4)
         data = [arr(rng, nn, ne, 100 * k) for k in range(nvar)]
         names = [f"v{k}" for k in range(nvar)]
+        if rng.random() < 0.4:      # real variable names: their alphabetical order is not their insertion order
+            names = rng.sample(["velocity", "density", "temperature", "bias", "u", "Z"], nvar)
         nex = rng.choice([0, 0, 1, 2, 3])
         extras = [arr(rng, nn, ne, 1000 + 100 * k) for k in range(nex)]
         exnames = [f"x{k}" for k in range(nex)] if nex else None
